@@ -204,7 +204,13 @@ def render(prog: list, variant: int = 0, mode: str = "visit") -> Rendered:
             info["defline"] = len(out) + 1
             out.append(ind + head)
             info["hdr_end"] = info["last"] = len(out)
-            stack.append({"i": i, "d": d, "k": k, "child": False})
+            child = False
+            if k == "else" and x == "else" and variant % 3 == 2 and i >= 2 and prog[i - 2][0] == "assign" and prog[i - 2][3] == d + 1 and not r.info[i - 1]["doc"]:
+                # a bare string opening the else branch, right after an undocumented assignment ending the if body:
+                # it documents nothing (attribute docstrings follow their assignment in the same block)
+                out.append(f'{ind}    """Stray text {i}."""')
+                child = True
+            stack.append({"i": i, "d": d, "k": k, "child": child})
         r.info[i] = info
     close(0, None)
     # a class / __init__ statement ends with the last line of its block, which may have been closed late
